@@ -142,6 +142,8 @@ inductive Ev where
   | keys (pub peerPub cr sr : Bytes) (ems : Bool) (transcript : Bytes) (k : Keys)
   /-- the peer's Finished verified under `k` for this transcript -/
   | finished (k : Keys) (transcript : Bytes)
+  /-- own Finished emitted: verify_data computed under `k` over this transcript -/
+  | sentFinished (k : Keys) (transcript : Bytes)
 deriving DecidableEq, Repr
 
 /-- `HandshakeContext` -/
@@ -321,7 +323,7 @@ def handleFinishedServer (C : Crypto) (e : Ep) (body raw : Bytes) : R :=
   else
     let fc := serverFinalFlight C e.ctx raw
     match e.ctx.keys with
-    | some k => ok (connect (withCtx e fc.2) k e.ctx.transcript) (sends fc.1)
+    | some k => ok (connect { withCtx e fc.2 with evs := .sentFinished k (e.ctx.transcript ++ raw) :: e.evs } k e.ctx.transcript) (sends fc.1)
     | none => ⟨{ withCtx e fc.2 with conn := .failed }, sends fc.1, true⟩
 
 /-- `handle_finished`, client branch -/
@@ -373,7 +375,7 @@ def clientFinalFlight (C : Crypto) (c : Ctx) (k : Keys) : List WRec × Ctx :=
   let c2 := { c with keys := some k }
   let (rc, c3) := ccsRecord c2
   let (rf, c4) := emitMsg c3 dtlsHtFinished (C.vd k.ms true c3.transcript) true
-  ([rc, rf], { c4 with lastFlight := some [rc, rf] })
+  ([rc, rf], c4)
 
 /-- `handle_server_hello_done` -/
 def handleServerHelloDone (C : Crypto) (L : Loc) (e : Ep) : R :=
@@ -385,8 +387,10 @@ def handleServerHelloDone (C : Crypto) (L : Loc) (e : Ep) : R :=
     | none => ok (withCtx e kc.2) (sends [kc.1])
     | some k =>
       let fc := clientFinalFlight C kc.2 k
-      ok { withCtx e fc.2 with
-             evs := .keys L.pub (kc.2.peerPub.getD []) (kc.2.clientRandom.getD []) (kc.2.serverRandom.getD []) kc.2.ems kc.2.transcript k :: e.evs }
+      -- the flight kept for retransmission starts with the ClientKeyExchange
+      ok { withCtx e { fc.2 with lastFlight := some (kc.1 :: fc.1) } with
+             evs := .sentFinished k kc.2.transcript ::
+                    .keys L.pub (kc.2.peerPub.getD []) (kc.2.clientRandom.getD []) (kc.2.serverRandom.getD []) kc.2.ems kc.2.transcript k :: e.evs }
          (sends (kc.1 :: fc.1))
 
 /-- `handle_handshake_message` -/
@@ -412,12 +416,13 @@ def inTranscript (typ : Nat) : Bool :=
 def clearPostHvr (e : Ep) : Ep :=
   if e.ctx.postHvr then { e with ctx := { e.ctx with postHvr := false } } else e
 
-/-- fragment buffer: reset on another message or on offset 0, then append — the offset is not
-otherwise looked at -/
-def bufferFrag (c : Ctx) (m : HsMsg) : Ctx :=
-  let c1 := if c.incompleteSeq ≠ m.msgSeq || m.fragOff = 0
-            then { c with incomplete := [], incompleteSeq := m.msgSeq } else c
-  { c1 with incomplete := c1.incomplete ++ m.body }
+/-- fragment buffer: reset on another message or on offset 0; then the fragment is appended only
+if it continues the buffer (`fragment_offset == buffer.len()`), otherwise it is ignored (`none`) -/
+def resetFrag (c : Ctx) (m : HsMsg) : Ctx :=
+  if c.incompleteSeq ≠ m.msgSeq || m.fragOff = 0
+  then { c with incomplete := [], incompleteSeq := m.msgSeq } else c
+
+def appendFrag (c : Ctx) (m : HsMsg) : Ctx := { c with incomplete := c.incomplete ++ m.body }
 
 /-- `recv_message_seq += 1` and the transcript rule -/
 def noteMsg (c : Ctx) (typ : Nat) (raw : Bytes) : Ctx :=
@@ -430,12 +435,15 @@ def takeBuffer (c : Ctx) : Ctx := { c with incomplete := [] }
 def acceptMsg (C : Crypto) (L : Loc) (e : Ep) (m : HsMsg) : R :=
   let e0 := clearPostHvr e
   if m.totalLen ≠ m.body.length then
-    let c2 := bufferFrag e0.ctx m
-    if c2.incomplete.length < m.totalLen then ok (withCtx e0 c2)
+    let c1 := resetFrag e0.ctx m
+    if m.fragOff ≠ c1.incomplete.length then ok (withCtx e0 c1)
     else
-      let body := c2.incomplete
-      let raw := encodeHs m.typ m.msgSeq 0 m.totalLen body
-      handleMsg C L (withCtx e0 (noteMsg (takeBuffer c2) m.typ raw)) m.typ body raw
+      let c2 := appendFrag c1 m
+      if c2.incomplete.length < m.totalLen then ok (withCtx e0 c2)
+      else
+        let body := c2.incomplete
+        let raw := encodeHs m.typ m.msgSeq 0 m.totalLen body
+        handleMsg C L (withCtx e0 (noteMsg (takeBuffer c2) m.typ raw)) m.typ body raw
   else
     handleMsg C L (withCtx e0 (noteMsg e0.ctx m.typ (rawOf m))) m.typ m.body (rawOf m)
 
@@ -454,6 +462,10 @@ def procMsg (C : Crypto) (L : Loc) (e : Ep) (auth : Bool) (m : HsMsg) : R :=
   if m.msgSeq < e.ctx.recvSeq then
     if e.ctx.postHvr && e.isClient then gate C L (resync e m) auth m
     else if m.typ = dtlsHtClientHello && !e.isClient then handleMsg C L e m.typ m.body (rawOf m)
+    else if m.typ = dtlsHtFinished && !e.isClient && auth then
+      (match e.ctx.lastFlight with        -- the client repeats its Finished: our final flight was lost
+       | some fl => ok e (sends fl)
+       | none => ok e)
     else ok e
   else if m.msgSeq > e.ctx.recvSeq then
     if e.ctx.postHvr && e.isClient then gate C L (resync e m) auth m
